@@ -27,8 +27,8 @@ fn plan(tier: Tier) -> Vec<Unit> {
             v
         }
         Tier::Thorough => {
-            let mut v = crate::util::split_budget("convert", 20_000_000, 40_000);
-            v.extend(crate::util::split_budget("construct", 600_000, 5_000));
+            let mut v = crate::util::split_budget("convert", 120_000_000, 100_000);
+            v.extend(crate::util::split_budget("construct", 3_000_000, 10_000));
             v
         }
         Tier::Miri => {
